@@ -107,7 +107,9 @@ def sweep(ctx, rng, limit):
                     extra.append((name, pp + ("ref",), json.dumps(node), mname, nv, setp(base, pp + ("ref",), nv)))
     cases += extra
     if len(cases) > limit:
-        keep = rng.sample(extra, min(len(extra), limit // 4))
+        resp = [c for c in extra if c[3] == "extend-path-respelled"]
+        lits = [c for c in extra if c[3] != "extend-path-respelled"]
+        keep = rng.sample(resp, min(len(resp), limit // 3)) + rng.sample(lits, min(len(lits), limit // 8))
         cases = rng.sample([c for c in cases if c not in extra], limit - len(keep)) + keep
     res = pool.validate_many([c[5] for c in cases])
     pool.close()
